@@ -18,7 +18,7 @@ type Config struct {
 	// EmitAccess makes the walker emit KAccess events for variable reads and writes.
 	EmitAccess bool
 	MaxDepth   int // inlining bound (default 6)
-	MaxPaths   int // per-entry path cap (default 20000)
+	MaxPaths   int // per-entry path cap (default 60000)
 	Unroll     int // loop unrolling (default 2)
 }
 
@@ -145,7 +145,7 @@ func Walk(prog *Prog, cfg *Config, entry Entry, onPath func(*Path)) (nPaths int,
 		cfg.MaxDepth = 10
 	}
 	if cfg.MaxPaths == 0 {
-		cfg.MaxPaths = 20000
+		cfg.MaxPaths = 60000
 	}
 	if cfg.Unroll == 0 {
 		cfg.Unroll = 2
